@@ -33,8 +33,10 @@ pub fn literals() -> Vec<J> {
 /// and numeric strings: prefix x digits x suffix. Classified by the exact reference; several hundred shapes.
 pub fn grammar_literals() -> Vec<J> {
     let mut v: Vec<J> = Vec::new();
-    let ints = ["0", "1", "7", "10", "21000", "9007199254740992", "9007199254740993", "18446744073709551615", "18446744073709551616"];
-    let fracs = ["", ".0", ".00", ".5", ".50", ".000000000000001", ".0000000000000000000000000000001", ".999999999999999999999"];
+    // incl. 15- and 16-digit integers below 2^53: with fraction zeros their digit strings exceed 2^53, where a JSON parser
+    // that is not correctly rounding delivers a neighbouring double
+    let ints = ["0", "1", "7", "10", "21000", "123456789012345", "999999999999999", "4503599627370497", "9007199254740989", "9007199254740991", "9007199254740992", "9007199254740993", "18446744073709551615", "18446744073709551616"];
+    let fracs = ["", ".0", ".00", ".000", ".0000", ".00000000", ".00000000000000000000", ".5", ".50", ".000000000000001", ".0000000000000000000000000000001", ".999999999999999999999"];
     let exps = ["", "e0", "E0", "e1", "e+1", "e-1", "e2", "E-2", "e17", "e22", "e23", "e77", "e78", "e-0", "e+00", "e-400", "e400"];
     for neg in ["", "-"] { for i in ints { for f in fracs { for e in exps { if neg == "-" && !(i == "0" || i == "1" || i == "21000") { continue; } v.push(J::Num(format!("{neg}{i}{f}{e}"))); } } } }
     let pre = ["", "0x", "0X", "+", "-", "+0x", "-0x", "0b", "0o", " ", "00", "0x0"]; let digs = ["0", "1", "10", "ff", "FF", "fF", "123456789", "18446744073709551616", "ffffffffffffffffffffffffffffffffffffffffffffffffffffffffffffffff", "10000000000000000000000000000000000000000000000000000000000000000"]; let suf = ["", " ", ".0", "e1", "_", "n", "\n", "h"];
